@@ -5,7 +5,7 @@ from gen import canonical_names, basename
 ID = "C03"
 HEAP_SUMMARY = True      # end every program with the reference-level observation (BB.Model.Heap vs id() walk)
 LEAN_MODULE = "BB.Properties.C03"
-QUICK_N = 300
+QUICK_N = 600
 THOROUGH_N = 6000
 RULE = ("blueprints of 1-6 segments with 0-3 absolute markers per marker channel and segment-bound markers (positive and "
         "negative delays, zero lengths, windows overlapping and running past the end; times >= 0.1 sample from a tie), then a "
